@@ -146,10 +146,24 @@ def scn_nested(T, case):
             [n if isinstance(n, str) else n[0] for n in log] == ["inner-handler", "outer-handler", "observers"], repr(log))
 
 
+# ------------------------------------------------------------------------------------ what the plan steps hand on (shared contract)
+def cases_steps(tier):
+    from contracts import stepcontract
+
+    return stepcontract.cases(tier)
+
+
+def scn_steps(T, case):
+    from contracts import stepcontract
+
+    stepcontract.scenario(T, case, "C15")
+
+
 SCENARIOS = [
     Scenario("step_event_streams", scn, stepflow.cases, {"quick": 10, "thorough": 100}),
     Scenario("emit_event_over_plan_chains", scn_chain, cases_chain, {"quick": 2, "thorough": 10}),
     Scenario("nested_plan_abort", scn_nested, cases_nested, {"quick": 1, "thorough": 1}),
+    Scenario("plan_steps_hand_over", scn_steps, cases_steps, {"quick": 1, "thorough": 2}),
 ]
 
 MANIFEST = {
